@@ -15,10 +15,10 @@ ASSUME = ['the promised languages are the predicates of spec/PregexMeta.tla, wri
 D = lambda s: tuple(ord(c) for c in str(s))
 
 
-def par(kind, alpha, ext=False, sign=False, lo=0, hi=9, dmin=1, dmax=-1, base=10, nmin=1, nmax=-1, glob=True, aslist=False, affixes=()):
+def par(kind, alpha, ext=False, sign=False, lo=0, hi=9, dmin=1, dmax=-1, base=10, nmin=1, nmax=-1, glob=True, aslist=False, affixes=(), seeds=()):
     return {'kind': kind, 'ext': ext, 'sign': sign, 'lo': D(lo), 'hi': D(hi), 'dmin': dmin, 'dmax': dmax, 'base': base,
             'nmin': nmin, 'nmax': nmax, 'glob': glob, 'aslist': aslist, 'affixes': frozenset(D(a) for a in affixes),
-            'alpha': frozenset(ord(c) for c in alpha)}
+            'alpha': frozenset(ord(c) for c in alpha), 'seeds': frozenset(D(t) for t in seeds)}
 
 
 def pars_tla(ps):
@@ -63,6 +63,17 @@ def int_configs(tier, seed):
             longp.append(par(kind, '09' if hi < 10 ** 6 else '12', ext=False, sign=sign, lo=lo, hi=hi))
             longp.append(par(kind, '01', ext=False, sign=sign, lo=lo, hi=hi))
     cfgs.append(meta_config('integers-long', longp, 7 if tier == 'quick' else 11))
+    # many-digit bounds and candidates, given as seed texts (beyond anything the text enumeration reaches)
+    big = []
+    for (lo, hi) in [(123456789012, 123456789123), (99999999, 100000000001), (0, 10 ** 15), (5 * 10 ** 11, 5 * 10 ** 11)]:
+        cands = set()
+        for v in (lo - 1, lo, lo + 1, hi - 1, hi, hi + 1, (lo + hi) // 2, hi * 10, lo // 10):
+            if v >= 0:
+                cands |= {str(v), '0' + str(v), ' ' + str(v) + ' ', '-' + str(v), '+' + str(v), 'x=' + str(v) + ';'}
+        for kind, sign in INT_KINDS:
+            for ext in (False, True):
+                big.append(par(kind, '', ext=ext, sign=sign, lo=lo, hi=hi, seeds=sorted(c for c in cands if not ext or c[0] not in ' x')))
+    cfgs.append(meta_config('integers-many-digits', big, 0))
     return cfgs
 
 
@@ -82,7 +93,13 @@ def dec_configs(tier, seed):
             for kind, sign in DEC_KINDS]
     mids = ['.5', '.75', '0.5', '1.25', '9.123', '-.5', '-1.5', '+.25', '+7.5', '100.10', '0.0']
     ctxs = ['', ' ', ',', ';', '(', ')', '\n', ', ', '!'] if tier != 'quick' else ['', ' ', ',', '(', '\n']
+    longf = []
+    for (a, b) in [(10, 12), (11, -1), (12, 12)]:
+        cands = ['%s.%s' % (i, '5' * k) for i in ('0', '7', '12', '') for k in (a - 1, a, a + 1, 12, 13, 30)]
+        for kind, sign in DEC_KINDS:
+            longf.append(par(kind, '', sign=sign, lo=0, hi=99, dmin=a, dmax=b, seeds=cands + ['-' + c for c in cands[:6]]))
     return [meta_config('decimals-exact', ps, 4 if tier == 'quick' else 5),
+            meta_config('decimals-long-fractions', longf, 0),
             meta_config('decimals-embedded', [], 0, decbase=base, decmids=mids, decctxs=ctxs)]
 
 
@@ -112,7 +129,21 @@ def word_configs(tier, seed):
         for aff in [('a.b',), ('a+',), ('$',), ('[a]', 'b'), ('a|b',), ('(', ')'), ('\\w',), ('^a',), ('a\\\\', 'b'), ('\\', 'a'), ("a'", 'b'), ('b', 'a|')]:
             al = ''.join(sorted(set(''.join(aff)) | set('ab1')))
             ps.append(par(k, al, ext=True, glob=True, affixes=aff))
-    return [meta_config('numerals-words', ps, 4 if tier == 'quick' else 5)]
+    longw = []
+    for (n, m) in [(10, 12), (11, -1), (12, 12), (1, 10)]:
+        ws = ['a' * k for k in (n - 1, n, n + 1, 12, 13, 40) if k > 0]
+        ws += ['x ' + w + ' y' for w in ws[:4]] + [w[:-1] + '_' for w in ws[:3]] + [w[:-1] + '-' + w for w in ws[:2]]
+        for ext in (False, True):
+            longw.append(par('Word', '', ext=ext, nmin=n, nmax=m, glob=True, seeds=[w for w in ws if not ext or ' ' not in w and '-' not in w]))
+        ds = [d * k for d in ('f', '9', 'A') for k in (n - 1, n, n + 1, 12, 13) if k > 0]
+        for b in (10, 16):
+            for ext in (False, True):
+                longw.append(par('Numeral', '', ext=ext, base=b, nmin=n, nmax=m, seeds=ds + (['id ' + ds[1] + ' ;'] if not ext else [])))
+    for k in ('WordContains', 'WordStartsWith', 'WordEndsWith'):
+        aff = ('abcdefgh', 'zyxwvutsrq')
+        ws = ['abcdefgh', 'xxabcdefghyy', 'abcdefghyy', 'xxabcdefgh', 'abcdefg', 'zyxwvutsrq1', '1zyxwvutsrq', 'abcdefgzyxwvutsr', 'say abcdefgh!', 'abcdefgh' * 4]
+        longw.append(par(k, '', ext=False, glob=True, affixes=aff, seeds=ws))
+    return [meta_config('numerals-words', ps, 4 if tier == 'quick' else 5), meta_config('numerals-words-long', longw, 0)]
 
 
 def ip_configs(tier, seed):
